@@ -103,3 +103,5 @@ func verifSetParams(k Keeper, ctx sdk.Context) {
 		verif_fail("SetParams rejected the default denom")
 	}
 }
+
+func verifUnix(sec int64) time.Time { return time.Unix(sec, 0) }
